@@ -358,7 +358,12 @@ func GenMessage(t *rapid.T, o HTTPOpts, sb *[]byte) MsgInfo {
 		if chunked {
 			n = rapid.IntRange(0, 50).Draw(t, "bogus_cl")
 		}
-		hs = append(hs, hdr{"Content-Length", strconv.Itoa(n)})
+		cl := strconv.Itoa(n)
+		if rapid.IntRange(0, 5).Draw(t, "cl_zeros") == 0 {
+			// 1*DIGIT: leading zeros are well-formed and mean the same decimal number
+			cl = strings.Repeat("0", rapid.IntRange(1, 3).Draw(t, "cl_nzeros")) + cl
+		}
+		hs = append(hs, hdr{"Content-Length", cl})
 	}
 	// shuffle header order (keep it deterministic through rapid)
 	if len(hs) > 1 {
